@@ -68,6 +68,7 @@ def shards(tier, seed):
     out.append(("manyspecs",))
     out.append(("repeat",))
     out.append(("threads",))
+    out.append(("served",))
     out += [("python-O", ("nospec",)), ("python-O", ("junk", 0, b["junk_len"])), ("python-O", ("seps", 0))]
     return out
 
@@ -266,6 +267,61 @@ def run_shard(desc, tier):
                 for perm in itertools.permutations(sub):
                     judge_grammar(list(perm), CHAIN_SIZE, RR.header_text(perm), r)
         r.sample({"size": CHAIN_SIZE, "header": RR.header_text(CHAIN), "result": _call(RR.header_text(CHAIN), CHAIN_SIZE)})
+    elif kind == "served":
+        # what the three servers *send* for a Range header is the set the header denotes, no more and no less: whole-file
+        # responses, one range, several ranges with small and large gaps between them - on WSGI, ASGI and ASGI with the zero-copy
+        # extension (the ranges the file response works with are the ones parse_range returned)
+        import os
+        import re as _re
+        import shutil
+        import tempfile
+        from . import c02
+        from ..refs import range_ref as RR2
+        d = tempfile.mkdtemp(prefix="c03-", dir=os.environ.get("VERIF_SCRATCH", "/tmp"))
+        try:
+            for size in (10, 1000):
+                data = bytes((i * 7 + 3) % 251 for i in range(size))
+                path = os.path.join(d, f"f{size}.bin")
+                with open(path, "wb") as f:
+                    f.write(data)
+                cases = [[("fl", 0, 1), ("fl", 5, 6)], [("fl", 0, 0), ("fl", 2, 2), ("fl", 4, 4)], [("fl", 0, 8), ("fl", 9, 9)], [("fl", 2, 8), ("s", 1)], [("fl", 0, 3), ("f", 5)], [("s", 2), ("fl", 0, 0)],
+                         [("fl", 5, 8), ("f", 5)], [("fl", 1, 1), ("fl", 3, 3), ("fl", 5, 5), ("fl", 7, 7), ("fl", 9, 9)]]
+                if size == 1000:
+                    cases += [[("fl", 100, 199), ("fl", 280, 300)], [("fl", 0, 9), ("fl", 95, 99)], [("fl", 0, 0), ("fl", 200, 200), ("fl", 999, 999)], [("fl", 10, 19), ("fl", 21, 29)], [("fl", 500, 600), ("fl", 400, 450), ("s", 10)], [("fl", 0, 498), ("f", 500)]]
+                for specs in cases:
+                    header = "bytes=" + ",".join(f"{a[1]}-{a[2]}" if a[0] == "fl" else (f"{a[1]}-" if a[0] == "f" else f"-{a[1]}") for a in specs)
+                    allowed, mask = RR2.classify(specs, size)
+                    if allowed:
+                        continue
+                    want = {i for i in range(size) if mask >> i & 1}
+                    for iface in ("wsgi", "asgi", "zerocopy"):
+                        res = c02.call(iface, path, 4, "GET", [("Range", header)])
+                        r.count("evaluations")
+                        r.count("distinct_nontrivial")
+                        w = {"served": header, "size": size, "iface": iface}
+                        if res.exc is not None or res.status != 206:
+                            r.violation(f"served:status:{iface}", w, f"{iface} FileResponse of a {size}-byte file, Range {header!r}: status {res.status}, exception {res.exc!r:.100}")
+                            continue
+                        ct = res.header("content-type") or ""
+                        m = _re.match(r"multipart/byteranges; *boundary=(.+)", ct)
+                        try:
+                            if m:
+                                parts = c02.parse_byteranges(res.body, m.group(1), size)
+                            else:
+                                cr = _re.fullmatch(r"bytes (\d+)-(\d+)/(\d+)", res.header("content-range") or "")
+                                parts = [(int(cr.group(1)), int(cr.group(2)) + 1, res.body)]
+                        except Exception as e:  # noqa
+                            r.violation(f"served:unreadable:{iface}", w, f"{iface} FileResponse of a {size}-byte file, Range {header!r}: {e!r:.150}")
+                            continue
+                        got = set()
+                        for s_, e_, payload in parts:
+                            got |= set(range(s_, e_))
+                        runs = [(s_, e_) for s_, e_, _ in parts]
+                        if got != want or any(p_ != data[s_:e_] for s_, e_, p_ in parts) or runs != sorted(runs) or any(a[1] >= b[0] for a, b in zip(runs, runs[1:])):
+                            r.violation(f"served:set:{iface}", w, f"{iface} FileResponse of a {size}-byte file, Range {header!r}: parts {runs} cover {len(got)} bytes, the header denotes {len(want)} ({sorted(want ^ got)[:6]} differ) - or are not sorted, disjoint and non-adjacent")
+        finally:
+            shutil.rmtree(d, ignore_errors=True)
+        r.sample({"served": "bytes=100-199,280-300", "ifaces": ["wsgi", "asgi", "zerocopy"]})
     elif kind == "threads":
         # two threads (two requests of a threaded server) resolve headers for files whose sizes have different digit counts; a
         # switch is possible on every line of baize/responses.py; each gets what it gets alone
@@ -368,6 +424,10 @@ def replay(w):
     if w.get("optimize") and not _sys.flags.optimize:
         from ..core import fresh
         return fresh.replay_optimized(__name__, w)
+    if "served" in w:
+        rr = run_shard(("served",), "quick")
+        hits = {k: v for k, v in rr.viol.items() if v[1].get("served") == w["served"] and v[1].get("iface") == w["iface"]}
+        return bool(hits), {"violations": sorted(hits), "texts": [v[2][:300] for v in hits.values()]}
     if "threads" in w:
         rr = run_shard(("threads",), "quick")
         return bool(rr.viol), {"violations": sorted(rr.viol), "texts": [v[2][:300] for v in rr.viol.values()]}
